@@ -48,7 +48,8 @@ pub fn all() -> Vec<PropInfo> {
         rule: "cases (seq, k) drawn by SeqGen x k in 1..=31 and compared with the naive window-scan model, through the core iterator and (as UTF-8 strings, bytes >= 0x80 mapped to two-byte characters) through pykmertools.KmerGenerator; \
                non-trivial = at least one window is emitted and (a foreign byte is present or k >= 16 or a lower-case/U base); \
                distinct by hash of (seq, k) \
-               plus giant sequences (66 000 bases to 2.3 M quick / 17.5 M thorough; periodic, homopolymer, pseudo-random; foreign edits) compared item by item with a streaming enumeration of the model (Python: count and digest), and cold-start cases: a fresh process whose 2-16 threads make their first iterator calls together",
+               plus giant sequences (66 000 bases to 2.3 M quick / 17.5 M thorough; periodic, homopolymer, pseudo-random; foreign edits) compared item by item with a streaming enumeration of the model (Python: count and digest), and cold-start cases: a fresh process whose 2-16 threads make their first iterator calls together \
+               every case up to 4096 bytes is repeated at each address alignment modulo 16; call histories on one thread (up to four iterators alive, generated interleaving of next / count / last / fold / for_each / collect / nth / skip / take, early drops and rebuilds, every item against the model); equal-length strings that live only for the Python constructor call; bytes >= 0x80 become characters of a table of Unicode confusables in the Python legs",
         assumptions: &["bytes 0x00-0x03 are never generated (left unspecified by the property)", "k outside 1..=31 never generated"],
         abort_is_violation: false,
     },
@@ -62,7 +63,8 @@ pub fn all() -> Vec<PropInfo> {
                involution, agreement with text-level reverse complement, decode/encode round trip; non-trivial = x not in {0, 4^k-1}. \
                (a') pykmertools to_acgt of both iterator classes against the model's decoding; (b) sequences x k: each pair's second component is the reverse complement of the first, the stream of the reverse-complemented text is the mirrored stream, \
                canonical multisets agree; non-trivial = at least 2 windows and seq != its reverse complement; distinct by hash of the case \
-               plus cold-start cases (fresh process, 2-16 threads released together, first calls of rev_comp / numeric_to_kmer / the iterator on generated arguments)",
+               plus cold-start cases (fresh process, 2-16 threads released together, first calls of rev_comp / numeric_to_kmer / the iterator on generated arguments) \
+               sequences with raw bytes 0x00-0x03 for the clause 'second component = reverse complement of the first'; Python to_acgt inside the iteration loop, after it, and for families of codes sharing low / high digits on one object",
         assumptions: &["codes >= 4^k are never passed (unspecified)", "reverse complement of a foreign byte is itself; U complements to A"],
         abort_is_violation: false,
     },
@@ -74,7 +76,8 @@ pub fn all() -> Vec<PropInfo> {
         watchdog: (300, 3600),
         rule: "one evaluation = one (k, code) pair of the exhaustive enumeration of all 4^k codes (plus one structural check per k and one per header source); \
                non-trivial = the code is canonical (its column is specified); entries of the k-mer->index vector at non-canonical codes are not inspected; distinct by (k, code) \
-               CLI headers are taken on five inputs (one record, empty .fa, empty .fq, three records, three records on stdin) and every data row must have as many values as the header names; plus cold-start cases: rank tables for several k per thread, any order, 2-16 threads at once in a fresh process",
+               CLI headers are taken on five inputs (one record, empty .fa, empty .fq, three records, three records on stdin) and every data row must have as many values as the header names; plus cold-start cases: rank tables for several k per thread, any order, 2-16 threads at once in a fresh process \
+               histories of up to 1200 table constructions on one thread (runs next to 256 and 512 calls); Python header after the caller edited the list it got; CLI header inputs with a short / empty first record",
         assumptions: &["header via the executable is checked for k in 3..=7 (the range the CLI accepts) and all three presets, in normalised and counts mode"],
         abort_is_violation: false,
     },
@@ -87,7 +90,8 @@ pub fn all() -> Vec<PropInfo> {
         rule: "records (SeqGen incl. foreign bytes, low-complexity and palindromic content, degenerate lengths) x k in 1..=8 x {normalised, counts}: (1) the per-sequence routine compared unrounded with model counts; \
                (2) the file API through both writers, (3) the executable (k 3..=7) and (4) pykmertools.OligoComputer.vectorise_one through a python3-vt worker; in (2)/(3) every record is followed by its reverse-complement, lower-case and T->U variants so that the invariances are checked on the same output; \
                values: exact integers in counts mode, within 5e-7 of count/total in normalised mode; non-trivial = some record has >= 2 distinct non-zero columns; distinct by hash of the case \
-               (5) giant records of 60 000 to 3.4 M (17.5 M) bases, one third homopolymers with a single other base at an end (a frequency that rounds up to 1.000000), through both writers and through Python",
+               (5) giant records of 60 000 to 3.4 M (17.5 M) bases, one third homopolymers with a single other base at an end (a frequency that rounds up to 1.000000), through both writers and through Python \
+               the Python leg feeds non-ASCII text (confusables); reads of one length with a few N",
         assumptions: &["normalised text compared with a tolerance of 5e-7 + 1e-12 (\"correct to 6 decimals\"), variant rows within 1e-6", "the Python leg feeds ASCII strings (bytes >= 0x80 masked); non-ASCII input is C13's subject"],
         abort_is_violation: false,
     },
@@ -100,7 +104,8 @@ pub fn all() -> Vec<PropInfo> {
         rule: "record lists (0..=40 quick / 300 thorough) x k 1..=4 x threads 1..=16 x batch limit {1 byte, one record, three records, half, 4 GiB} x writer {mmap, batch} x norm x header x 3 delimiters x container (FASTA, wrapped, CRLF, FASTQ, gzip incl. multi-member) x schedule (free, perturbed, controlled choice vector); \
                oracle: baseline (1 thread, batch writer, single-line FASTA) matches the model row by row, the generated configuration gives identical bytes, header-on = header line + header-off bytes; plus bounded-exhaustive enumeration of all hook-granularity schedules of the mmap writer for small inputs; \
                non-trivial = >= 3 records and (threads >= 2 or >= 2 batches or a non-FIFO controlled schedule or a non-baseline container); distinct by hash of the case \
-               plus big outputs: a record list repeated until the output has 64 KiB, 1, 4, 8 (16, 32) MiB, k 3..=8, optional long first record",
+               plus big outputs: a record list repeated until the output has 64 KiB, 1, 4, 8 (16, 32) MiB, k 3..=8, optional long first record \
+               left-over output at the output path, record starts aligned to 4 KiB .. 2 MiB of the text, multi-line FASTQ, nameless records, records whose window total is a multiple of 128 / 640 (decimal ties)",
         assumptions: &["interleavings finer than the two schedule points per worker loop are explored only by free-running threads", "mmap writer is only used in normalised mode (it asserts so)"],
         abort_is_violation: false,
     },
@@ -125,7 +130,8 @@ pub fn all() -> Vec<PropInfo> {
         rule: "mmap writer: records x k 1..=8 x delimiters of length 0..=4 x header x threads x schedule; every (pos,len,cap) logged in MMWriter::write_at must be in bounds, pairwise disjoint and tile [0,cap), cap = file size = header + n x row length, no NUL byte in the file; \
                coverage (bin size/count 1..6 with k-mer multiplicities exactly at, just around and far beyond bin size x bin count), counting (partitions far above the number of distinct k-mers, k up to 31), k-mer CGR and the per-sequence oligo routine are executed in the same journaled child: shards are built with debug assertions so a violated get_unchecked precondition aborts the shard (dead shard = violation, journaled case = replay); \
                non-trivial = mmap: >= 2 records and (delimiter length != 1 or header or threads >= 2); cov: multiplicity >= bin size x bin count - 1 and a valid window; ctr: >= 2 partitions; distinct by hash of the case \
-               the mmap leg also runs with a giant record (frequencies rounding up to 1); the coverage kernel also with an unrelated or k-mer-free counting input",
+               the mmap leg also runs with a giant record (frequencies rounding up to 1); the coverage kernel also with an unrelated or k-mer-free counting input \
+               the mmap leg runs over every container and, in a fifth of the cases, as the second run of one computer object whose input file was rewritten; Python objects whose public data attributes were assigned generated values (child interpreter, debug-assertions build of the module: death by signal = violation)",
         assumptions: &["an out-of-bounds read through a site without ub_checks is not observable", "the write-log hook panics before an out-of-bounds copy would happen, so the harness process is not corrupted"],
         abort_is_violation: true,
     },
@@ -137,7 +143,8 @@ pub fn all() -> Vec<PropInfo> {
         watchdog: (300, 3600),
         rule: "well-formed record lists serialised as FASTA (single-line / wrapped / CRLF / no final newline) or 4-line FASTQ, plain or gzip with 1..=5 members split at arbitrary byte offsets (stored or deflated), \
                read back through SeqFormat::get + get_reader + Sequences and through seq_stats; oracle = the record list itself (round trip); \
-               non-trivial = >= 2 records and (wrapped or CRLF or no final newline or an empty record or >= 2 gzip members or a line > 8 KiB); distinct by hash of the case",
+               non-trivial = >= 2 records and (wrapped or CRLF or no final newline or an empty record or >= 2 gzip members or a line > 8 KiB); distinct by hash of the case \
+               multi-line FASTQ, record starts (or a point inside the header line, or between CR and LF) aligned to block boundaries of the text, nameless records with bases, descriptions containing > @ +",
         assumptions: &["only well-formed input: unique ids without white space, one space before the description, no blank lines, FASTQ only when every record has >= 1 base (rust-bio rejects empty FASTQ sequences), ASCII sequence bytes"],
         abort_is_violation: false,
     },
@@ -149,7 +156,8 @@ pub fn all() -> Vec<PropInfo> {
         watchdog: (900, 7200),
         rule: "inputs (RecGen, low-complexity weighted, all containers) x k 1..=31 x threads 1..=16 x memory ceiling derived from the input so that the run makes about 1,2,3,5,12,30 chunks (partitions follow) x acgt x schedule (free, perturbed, controlled choice vector over the counting worker's schedule points); \
                kmers.counts parsed and compared as a map with the model multiset of canonical k-mers (no k-mer twice, nothing missing or invented), directory listing after merge(delete) = {kmers.counts}; plus contention stress (identical records, k<=3, 8-16 threads), large inputs (30-200 records of up to 700 bases, k>=11: tens of thousands of distinct k-mers per partition table and chunk file) and bounded-exhaustive schedule enumeration for small inputs; \
-               non-trivial = >= 2 chunks and >= 2 partitions and some k-mer with count >= 2; distinct by hash of the case",
+               non-trivial = >= 2 chunks and >= 2 partitions and some k-mer with count >= 2; distinct by hash of the case \
+               contention on new keys (adjacent duplicate records, k 7..=21); a third of the runs merge 1-40 more times with merge(false), every merge giving the same table",
         assumptions: &["line order of kmers.counts is not compared", "the output directory is created fresh by the harness", "interleavings inside the concurrent map are only stressed, not controlled"],
         abort_is_violation: false,
     },
@@ -162,7 +170,8 @@ pub fn all() -> Vec<PropInfo> {
         rule: "inputs (RecGen incl. all-empty files and degenerate lengths, all containers) x k 1..=31 x bin size {1..8,16,1000} x bin count {1..8,16} x normalised/raw x optional separate counting input sharing a prefix of the records x threads x memory {input-derived (several counting chunks, flush per record), 0.5, 1, 6 GB} x delimiter; \
                kmers.vectors must have one row per record in input order, each equal to the model histogram built from the model count table (exact raw, 5e-7 normalised); \
                non-trivial = >= 2 records and (a window saturates into the last bin or some record has >= 2 non-zero bins); distinct by hash of the case \
-               bin sizes to 5000 and an extra record whose k-mers occur exactly m x bin size (+0, +-1) times; re-run-in-place cases: same directory and same input path, file rewritten with other records of the same byte size (mtime kept in half of the cases), second result against the model of the new content",
+               bin sizes to 5000 and an extra record whose k-mers occur exactly m x bin size (+0, +-1) times; re-run-in-place cases: same directory and same input path, file rewritten with other records of the same byte size (mtime kept in half of the cases), second result against the model of the new content \
+               contention on new keys with bin size 1; round-number multiplicities (255 .. 65536 +-1); one CovComputer object through 2-4 rounds of set_kmer_path / build_table / compute_coverages",
         assumptions: &["'flush per few records' needs > 1 GiB of bases per batch and is not generated", "tolerance 5e-7 + 1e-12 for 6-decimal text"],
         abort_is_violation: false,
     },
@@ -174,7 +183,8 @@ pub fn all() -> Vec<PropInfo> {
         watchdog: (300, 3600),
         rule: "(a) all strings over {A,C,G,T,N} up to a length bound crossed with a fixed list of small (w,m); (b) random (bytes, w, m) with m<=31, w<=m+60; \
                iterator output (core, and pykmertools.MinimiserGenerator on UTF-8 strings) compared with the model's maximal runs; non-trivial = the model has >= 2 runs, or >= 1 run and a foreign byte; distinct by enumeration / hash of the case \
-               plus giant cases: pseudo-random sequences of 66 000 to 400 000 (3 M) bases with w = length, w-m+1 = 65536+-3, w >= 2^16 or small w, through the core iterator and (0.9-4.5 M bases) through Python, oracle = monotone-queue variant of the model cross-checked against the naive one; offsets beyond 2^32 in the thorough tier (shift relation); cold-start cases",
+               plus giant cases: pseudo-random sequences of 66 000 to 400 000 (3 M) bases with w = length, w-m+1 = 65536+-3, w >= 2^16 or small w, through the core iterator and (0.9-4.5 M bases) through Python, oracle = monotone-queue variant of the model cross-checked against the naive one; offsets beyond 2^32 in the thorough tier (shift relation); cold-start cases \
+               address alignments; call histories (see C01); equal-length Python temporaries",
         assumptions: &["1 <= m <= w, m <= 31 by construction", "bytes 0x00-0x03 never generated"],
         abort_is_violation: false,
     },
@@ -186,7 +196,8 @@ pub fn all() -> Vec<PropInfo> {
         watchdog: (900, 7200),
         rule: "record lists (safe unique ids, 5% with a reused id; all containers; degenerate lengths around m and w) x m 1..=28 x (w = 0 or m < w <= m+40) x threads 1..=16 x schedule (free, perturbed, controlled over both worker loops); \
                s2m lines compared as a multiset with the model's per-record runs, m2s compared per minimiser text with the model's (id,start,end) multisets, and m2s must be the inversion of the actual s2m; plus bounded-exhaustive schedule enumeration for small inputs; \
-               non-trivial = >= 3 records, a minimiser text shared by >= 2 records, threads >= 2; distinct by hash of the case",
+               non-trivial = >= 3 records, a minimiser text shared by >= 2 records, threads >= 2; distinct by hash of the case \
+               a quarter of the runs start with left-over text at both output paths",
         assumptions: &["w = 0 means one window of max(record length, m) bases: a record shorter than m or holding a foreign byte has no run", "ids are restricted so that Rust's Debug rendering in m2s is the identity"],
         abort_is_violation: false,
     },
@@ -199,7 +210,8 @@ pub fn all() -> Vec<PropInfo> {
         rule: "(1) nucleotide strings (ACGTU either case, low-complexity included) x S in 1..2^20 through the per-sequence routine: every point equals the exact dyadic model (bit-exact while the exact value fits 53 bits, within S*2^-48 beyond), lies in the sub-square fixed by its last min(i,20) bases, and is unchanged when a suffix is appended; \
                (2) strings with one inserted foreign byte must be refused (Err or panic), never Ok; (2') pykmertools.CgrComputer.vectorise_one: exact points for nucleotide strings, ValueError for any string holding another character (incl. non-ASCII); (3) files of nucleotide records x containers x threads x batch limit {1 byte, 3 records, half, 4 GiB}, optionally with one poisoned record: rows per record in order, and on refusal only correct complete rows of records before the offending one; \
                non-trivial = length >= 5 with >= 3 distinct bases (direct) / >= 2 records one of them >= 5 bases (files); distinct by hash of the case \
-               every point list is also checked locally: point i = midpoint of the reported point i-1 and the corner within 4 ulp; long low-complexity sequences (8 000 - 70 000 / 1.2 M bases) through the library routine and Python",
+               every point list is also checked locally: point i = midpoint of the reported point i-1 and the corner within 4 ulp; long low-complexity sequences (8 000 - 70 000 / 1.2 M bases) through the library routine and Python \
+               file cases with any printable non-nucleotide character as the offending byte and with hundreds of records per batch",
         assumptions: &["a panic counts as 'rejected with an error'", "S >= 1; exactness rule: exact iff the exact value needs <= 53 significant bits"],
         abort_is_violation: false,
     },
@@ -211,7 +223,8 @@ pub fn all() -> Vec<PropInfo> {
         watchdog: (900, 7200),
         rule: "records (foreign bytes allowed, degenerate lengths) x containers x k 1..=7 x S x normalised/raw x threads x batch limit: row i has one (x,y,f) per canonical k-mer in rank order, (x,y) = exact chaos-game end point of the k-mer text (identical in every row), f within 1e-9 of the model oligo value and equal (5e-7 / exact) to what comp oligo writes for the same file; \
                non-trivial = >= 2 records and some record with >= 2 non-zero columns; distinct by hash of the case \
-               plus the same check through the executable (S in {1, 2, 3, k^2, 2^20, uniform}) and giant records with counts beyond 2^16 and 2^24",
+               plus the same check through the executable (S in {1, 2, 3, k^2, 2^20, uniform}) and giant records with counts beyond 2^16 and 2^24 \
+               record counts beyond 2^16 and 2^17 (amplicon-like inputs, each distinct record verified once, identical records byte for byte); another computer of the same k and another square size alive",
         assumptions: &["k-mer end points are exactly representable for k <= 7 and S <= 2^20 (asserted)"],
         abort_is_violation: false,
     },
@@ -223,7 +236,8 @@ pub fn all() -> Vec<PropInfo> {
         watchdog: (900, 7200),
         rule: "a generated in-range command (every subcommand, presets, -c/--counts, -H, -t 0..16, -k/-m/-w/-s/-c/-v/-m values, --acgt, --alt-input, stdin) over generated inputs is executed through the built executable and related to a second execution: the library called with the documented meaning of the options (differential), another preset (equal after delimiter replacement), header toggled (exactly one more line), another thread count (same bytes / same line multiset), counts toggled (per-row normalisation within 5e-7), --acgt toggled (same table after decoding), stdin instead of a file, the same command line through the Python package's entry point pykmertools.run_cli (py/entry.py); \
                options are written in a generated spelling (-k 5, --k-size 5, --k-size=5, -k5) and, in a quarter of the cases, options at their documented default are left out; \
-               plus a fixed list of values just outside every documented range and a generated leg (a random accepted command in a random spelling with one of k, m, w, bin size, bin count, memory pushed outside its range: below, just above, far above incl. values that wrap into the range when truncated to 8/16/32 bits, beyond u64, negative, non-numeric): diagnostic on stderr, no output location created, no panic; non-trivial = >= 2 records and >= 2 options differing from their defaults; distinct by hash of the case",
+               plus a fixed list of values just outside every documented range and a generated leg (a random accepted command in a random spelling with one of k, m, w, bin size, bin count, memory pushed outside its range: below, just above, far above incl. values that wrap into the range when truncated to 8/16/32 bits, beyond u64, negative, non-numeric): diagnostic on stderr, no output location created, no panic; non-trivial = >= 2 records and >= 2 options differing from their defaults; distinct by hash of the case \
+               generated option spelling; degenerate tails; relations on top of an earlier result; every result must be NUL-free text",
         assumptions: &["exit status of refusals is not constrained (the statement does not; the w <= m refusal exits 0)", "comp cgr is always given an explicit -v (its default size is not documented)"],
         abort_is_violation: false,
     },
@@ -235,7 +249,8 @@ pub fn all() -> Vec<PropInfo> {
         watchdog: (900, 7200),
         rule: "degenerate-shape record lists (0 records; lengths 0, 1, k-1, k, k+1, m, w; all-ambiguous; ambiguous first/last; mixtures; FASTA and, when no record is empty, FASTQ; all containers) x every subcommand with accepted options, through the executable (documented ranges) and through the library (k, m from 1; both oligo writers; cov flush modes); \
                validity predicate: exit 0 / no panic / no error, record-oriented outputs have exactly one row per record of the right width, every number finite, every minimiser run at least a window long, free of ambiguous bytes and containing its minimiser (no placeholder), counts > 0 with codes < 4^k; whole-sequence CGR may refuse records with foreign bytes; \
-               non-trivial = the input contains a boundary shape relevant to the subcommand's parameter; distinct by hash of the case",
+               non-trivial = the input contains a boundary shape relevant to the subcommand's parameter; distinct by hash of the case \
+               blocks of 64..4096 identical degenerate records at multiples of the block size (optionally ending the input) and record starts on block boundaries of the text",
         assumptions: &["an executable run exceeding 120 s is reported as inconclusive, not as a violation"],
         abort_is_violation: false,
     },
@@ -248,7 +263,8 @@ pub fn all() -> Vec<PropInfo> {
         rule: "histories of 2-3 runs (any subcommands writing the same kind of location, different inputs, k, threads; library runs of ctr/cov with input-derived memory ceilings and merge(false) so that stale temp_kmers.* of more chunks/partitions remain; 15% repeat the same command) sharing one output path or directory; \
                the result files after the last run must equal those of the same run in a fresh location (bytes for ordered outputs, sorted lines for counts tables and minimiser listings); \
                non-trivial = the earlier run left a longer result or stale temp files; distinct by hash of the case \
-               steps read one of two input paths; a file is only rewritten when its content changes (optionally keeping its mtime); shapes: same command twice, X-Y-X with X's file untouched, input rewritten in place with the same byte size",
+               steps read one of two input paths; a file is only rewritten when its content changes (optionally keeping its mtime); shapes: same command twice, X-Y-X with X's file untouched, input rewritten in place with the same byte size \
+               the reference run uses its own copies of the input files; degenerate last steps; rewrite-in-place with another record count of the same byte size, optionally with both runs inside one process",
         assumptions: &["a history whose step fails is skipped (clean termination is C16's subject)", "file-based and directory-based subcommands are not mixed in one history"],
         abort_is_violation: false,
     },
@@ -260,7 +276,8 @@ pub fn all() -> Vec<PropInfo> {
         watchdog: (300, 3600),
         rule: "same generators as C09 with w <= 31; runs compared with the plain iterator (differential) and the concatenated k-mer lists with the model's canonical w-mers; \
                non-trivial = (>= 2 runs or a foreign byte with >= 1 run) and >= 1 w-mer; distinct by enumeration / hash of the case \
-               plus giant sequences (66 000 - 400 000 / 3 M bases), a differential leg with raw bytes 0x00-0x03 (runs equal to the plain iterator's, as many w-mers as windows in the runs), offsets beyond 2^32 in the thorough tier, cold-start cases",
+               plus giant sequences (66 000 - 400 000 / 3 M bases), a differential leg with raw bytes 0x00-0x03 (runs equal to the plain iterator's, as many w-mers as windows in the runs), offsets beyond 2^32 in the thorough tier, cold-start cases \
+               address alignments; call histories (see C01)",
         assumptions: &["1 <= m <= w <= 31 by construction"],
         abort_is_violation: false,
     }]
